@@ -1654,9 +1654,18 @@ Proof. apply H10b_H10. vm_compute. reflexivity. Qed.
 Lemma ex_study_hash_H10 : H10 (lookup ex_table) ex_study_hash.
 Proof. apply H10b_H10. vm_compute. reflexivity. Qed.
 
+(** a character the sanitiser strips, computed from the regenerated alphabet
+    (so that the witnesses survive harmless edits of the alphabet) *)
+Definition stripped_char : N :=
+  hd 0%N (filter (fun c => negb (memN c safe_alphabet))
+                 [42; 43; 37; 38; 33; 35; 64; 126; 233; 20013]%N).
+Definition I1 (step : string) (combo : str) : inst :=
+  mkinst (s step) (Some combo) true [s "41"; s "42"].
+
 (** K1a: labels that differ only in a stripped character share the workspace *)
 Definition k1a_study : study :=
-  mkstudy (s "/R/study") [] false ALocal [I0 "run" (Some "a*b"); I0 "run" (Some "ab")].
+  mkstudy (s "/R/study") [] false ALocal
+          [I1 "run" ((s "a" ++ stripped_char :: s "b")%list); I1 "run" (s "ab")].
 Lemma k1a_refuted :
   wf_study noh k1a_study = true /\ sig_collide noh k1a_study = true /\
   C10_ok (model_obs noh k1a_study) = false.
@@ -1664,7 +1673,7 @@ Proof. vm_compute. auto. Qed.
 
 (** K1b: a '/' in a label: the script is not a file directly in the workspace *)
 Definition k1b_study : study :=
-  mkstudy (s "/R/study") [] false ALocal [I0 "run" (Some "a/b")].
+  mkstudy (s "/R/study") [] false ALocal [I1 "run" (s "a/b")].
 Lemma k1b_refuted :
   wf_study noh k1b_study = true /\ sig_slash noh k1b_study = true /\
   sig_collide noh k1b_study = false /\ sig_degenerate noh k1b_study = false /\
@@ -1674,9 +1683,9 @@ Proof. vm_compute. auto 6. Qed.
 (** K1c: a value ".." resolves to the study directory; a label that sanitises
     to the empty string resolves to the step directory, above its siblings *)
 Definition k1c_study : study :=
-  mkstudy (s "/R/study") [] false ALocal [I0 "run" (Some "..")].
+  mkstudy (s "/R/study") [] false ALocal [I1 "run" (s ".."); I1 "run" (s "a")].
 Definition k1c_study_empty : study :=
-  mkstudy (s "/R/study") [] false ALocal [I0 "run" (Some "*"); I0 "run" (Some "a")].
+  mkstudy (s "/R/study") [] false ALocal [I1 "run" [stripped_char]; I1 "run" (s "a")].
 Lemma k1c_refuted :
   wf_study noh k1c_study = true /\ sig_degenerate noh k1c_study = true /\
   sig_collide noh k1c_study = false /\ sig_slash noh k1c_study = false /\
